@@ -166,7 +166,8 @@ class Integrate:
         integrals = []
         for piece in curve.split():  # Each piece is closed on its own span
             start, end = piece.knotvector.limits
-            nodes = tuple(start + (end - start) * node for node in nodes_0to1)
+            # Exact at both ends: start + (end - start) can pass end by rounding
+            nodes = tuple((1 - node) * start + node * end for node in nodes_0to1)
             curve_vals = tuple(piece.eval(node) for node in nodes)
             function_vals = tuple(function(node) for node in nodes)
             new_integral = sum(
@@ -270,7 +271,8 @@ class Integrate:
         integrals = []
         for piece in curve.split():  # Each piece is closed on its own span
             start, end = piece.knotvector.limits
-            nodes = tuple(start + (end - start) * node for node in nodes_0to1)
+            # Exact at both ends: start + (end - start) can pass end by rounding
+            nodes = tuple((1 - node) * start + node * end for node in nodes_0to1)
             curve_vals = tuple(piece.eval(node) for node in nodes)
             abscurve_vals = tuple(np.sqrt(val @ val) for val in curve_vals)
             function_vals = tuple(function(node) for node in nodes)
@@ -342,7 +344,8 @@ class Integrate:
         knots = knotvector.knots
         integrals = []
         for start, end in zip(knots[:-1], knots[1:]):
-            nodes = tuple(start + (end - start) * node for node in nodes_0to1)
+            # Exact at both ends: start + (end - start) can pass end by rounding
+            nodes = tuple((1 - node) * start + node * end for node in nodes_0to1)
             function_vals = tuple(function(node) for node in nodes)
             new_integral = sum(map(np.prod, zip(integ_array, function_vals)))
             integrals.append((end - start) * new_integral)
